@@ -26,7 +26,7 @@ type Config struct {
 	// LocaleVia: which POSIX variable carries it.  0: LC_ALL; 1: LC_CTYPE
 	// (LC_ALL unset); 2: LANG (LC_ALL, LC_CTYPE unset); 3: LC_CTYPE with
 	// LC_ALL set but empty; 4: LANG with LC_ALL and LC_CTYPE set but empty
-	// (an empty value counts as unset).
+	// (an empty value counts as unset); 5: as 1 with LANG=C as the decoy.
 	LocaleVia int
 	// LocaleForm: how the locale name is spelt around its codeset.  0: as
 	// given; 1: "C.<codeset>"; 2: "POSIX.<codeset>"; 3: with an "@euro"
@@ -117,6 +117,10 @@ func NewWorld(cfg Config, ch *simrt.Chooser) (*World, error) {
 	if strings.Contains(strings.ToUpper(lc), "UTF-8") || strings.Contains(strings.ToUpper(lc), "UTF8") {
 		decoy = "en_US.ISO8859-1"
 	}
+	if cfg.LocaleVia >= 3 && decoy == "en_US.UTF-8" {
+		// (another decoy: the plain C locale, in which high bytes are no text at all)
+		decoy = "C"
+	}
 	switch cfg.LocaleVia {
 	case 1:
 		os.Setenv("LC_CTYPE", lc)
@@ -131,6 +135,9 @@ func NewWorld(cfg Config, ch *simrt.Chooser) (*World, error) {
 		os.Setenv("LC_ALL", "")
 		os.Setenv("LC_CTYPE", "")
 		os.Setenv("LANG", lc)
+	case 5:
+		os.Setenv("LC_CTYPE", lc)
+		os.Setenv("LANG", decoy)
 	default:
 		os.Setenv("LC_ALL", lc)
 		os.Setenv("LC_CTYPE", decoy)
